@@ -153,6 +153,15 @@ def main(tier, replay=None):
         else:
             y = values.enc_num(Fraction(rng.randint(-40, 40), rng.choice([1, 2, 4])))
             cases.append({'f': rng.choice(['ATAN2', 'LOG', 'POWER']), 'args': [v, y]})
+    # text that spells no number - the empty text included - is an error for every function, in every argument
+    for f in f1 + ['LOG']:
+        for t in ('', ' ', 'abc', '1x', '--1', '1,5', 'e', '.', '1e', 'pi', '0x10', 'inf', 'nan', 'Infinity', '-inf', 'NaN', 'TRUE',
+                  rng.choice(['q', 'é', '#', '1 2'])):
+            cases.append({'f': f, 'args': [enc(t)]})
+    for f in ('ATAN2', 'LOG', 'POWER'):
+        for t in ('', ' ', 'abc', '1x'):
+            cases.append({'f': f, 'args': [enc(t), enc(2)]})
+            cases.append({'f': f, 'args': [enc(2), enc(t)]})
     obs = fncases.observe(lib, cases, literal=False)
     so = suite.observations({'ABS','SQRT','EXP','LN','LOG','LOG10','POWER','SIN','COS','TAN','COT','ASIN','ACOS','ATAN','ACOT','SINH','COSH','TANH','ASINH','ACOSH','ATANH','ACOTH','ATAN2','RADIANS','DEGREES'}, len(obs) + 1)   # the same functions as the repository's own tests call them
     run.extra['calls_from_repository_tests'] = len(so)
@@ -221,9 +230,12 @@ def main(tier, replay=None):
     # PV: annuity equation
     pvf = 'PV(r,n,pmt,fv,ty)*POWER(1+r,n)+pmt*(1+r*ty)*(POWER(1+r,n)-1)/r+fv'
     pv0 = 'PV(0,n,pmt,fv,ty)+pmt*n+fv'
-    for _ in range(400 if quick else 10000):
+    for i in range(400 if quick else 10000):
         rt = rng.choice([rng.randint(-900, 1000) / 1000, rng.choice([0.01, 0.05, 0.1, 0.125, -0.5, 1])])
         n = rng.randint(0, 40)
+        if i % 8 == 0:      # rates close to, but not at, zero over many periods: still the annuity equation, not its limit
+            rt = rng.choice([1, -1]) * rng.choice([2e-7, 5e-7, 9.9e-7, 1.5e-6, 1e-5, 1e-4, 0.001 / 12])
+            n = rng.choice([120, 360, 1000])
         pmt, fv, ty = rng.choice([0, 100, -250.5, 1000]), rng.choice([0, 1000, -5000.25]), rng.choice([0, 1])
         for k, v in (('r', rt), ('n', n), ('pmt', pmt), ('fv', fv), ('ty', ty)):
             p.set_variable(k, v)
